@@ -8,7 +8,8 @@ from .values import (NONE, Num, Str, SStr, Cat, Obj, TupleV, Star, Choice, Opaqu
 from .absint import Raised, Unsupported, BOOL, SIGNS, _norm
 
 FORCED = frozenset(['len', 'range', 'isinstance', 'getattr', 'str', 'repr', 'float', 'int', 'bool', 'abs', 'dict',
-                    'list', 'tuple', 'type', 'sorted', 'max', 'min', 'format'])
+                    'list', 'tuple', 'type', 'sorted', 'max', 'min', 'format', 'enumerate', 'zip', 'reversed', 'set',
+                    'frozenset'])
 LAZY = frozenset(['str', 'repr', 'format', 'float', 'isinstance', 'Decimal', 'decimal.Decimal'])
 POS = frozenset([1])
 NONNEG = frozenset([0, 1])
@@ -412,6 +413,26 @@ def _call_builtin(I, st, f, name, args, kw, frame, node, where):
         v = args[0]
         if isinstance(v, Obj) and v.oid in st.cls:
             return [(st, ClassRef(st.cls[v.oid]))]
+    if name in ('enumerate', 'zip', 'reversed', 'set', 'frozenset') and args:
+        from .exprs import seq_elements
+        try:
+            seqs = [seq_elements(I, st, a) for a in args[:1 if name in ('enumerate', 'reversed', 'set', 'frozenset') else None]]
+        except Unsupported:
+            seqs = None
+        if seqs is not None and not any(isinstance(x, Star) or type(x).__name__ == 'Opt' for sq in seqs for x in sq):
+            if name == 'enumerate':
+                start = 0
+                if len(args) > 1 and isinstance(args[1], Num) and args[1].is_const():
+                    start = int(args[1].p.const_value())
+                elif 'start' in kw and isinstance(kw['start'], Num) and kw['start'].is_const():
+                    start = int(kw['start'].p.const_value())
+                return [(st, IterV([TupleV([Num.const(start + i), x]) for i, x in enumerate(seqs[0])], 'enumerate'))]
+            if name == 'zip':
+                n = min(len(sq) for sq in seqs) if seqs else 0
+                return [(st, IterV([TupleV([sq[i] for sq in seqs]) for i in range(n)], 'zip'))]
+            if name == 'reversed':
+                return [(st, IterV(list(reversed(seqs[0])), 'reversed'))]
+            return [(st, TupleV(seqs[0]))]      # set of known elements: used for membership tests
     if name == 'sorted' or name == 'reversed' or name == 'filter' or name == 'map' or name == 'set' or \
             name == 'frozenset' or name == 'enumerate' or name == 'zip':
         from .exprs import seq_elements
